@@ -19,6 +19,10 @@ pub enum ErrClass {
     Other,
 }
 pub struct VErr { pub class: ErrClass }
+// a request refused because it does not apply in the current state (as opposed to a failed operation)
+pub open spec fn is_refusal(e: VErr) -> bool {
+    e.class == ErrClass::ActiveBlobExists || e.class == ErrClass::ActiveBlobDoesntExist || e.class == ErrClass::ActiveBlobNotSet
+}
 impl VErr {
     pub fn validation(kind: ValidationErrorKind) -> (r: VErr)
         ensures r.class == ErrClass::Validation(kind)
